@@ -40,6 +40,8 @@ def classes(name):
 def item_text(it, n, cls):
     label = cls[it["c"] - 1][it["s"] - 1]
     if it["k"] == "use":
+        if it["kind"] == "listlink":
+            return "- use [x][%s] end\n-\n" % label
         return ("use [x][%s] end\n" if it["kind"] == "link" else "use ![x][%s] end\n") % label
     if it["kind"] == "one":
         return "[%s]: /d%d\n" % (label, n)
